@@ -158,6 +158,49 @@ var toDecimalAllowed = map[string][]string{
 	"uint":               {"github.com/woodsbury/decimal128.FromUint64"},
 }
 
+func repoFuncByFullName(p *Program, full string) *ssa.Function {
+	for _, f := range p.Funcs {
+		if f.Parent() == nil && f.String() == full {
+			return f
+		}
+	}
+	return nil
+}
+
+// libraryCallsOf: the functions outside the repository that fn calls, directly or through functions of the repository.
+func libraryCallsOf(p *Program, fn *ssa.Function) []string {
+	seen := map[*ssa.Function]bool{}
+	out := map[string]bool{}
+	var walk func(f *ssa.Function)
+	walk = func(f *ssa.Function) {
+		if seen[f] {
+			return
+		}
+		seen[f] = true
+		for _, b := range f.Blocks {
+			for _, in := range b.Instrs {
+				ci, ok := in.(ssa.CallInstruction)
+				if !ok || builtinName(ci.Common()) != "" {
+					continue
+				}
+				c := calleeOf(ci.Common())
+				if c != nil && p.IsRepo(c) && len(c.Blocks) > 0 {
+					walk(c)
+					continue
+				}
+				out[calleeFullName(ci.Common())] = true
+			}
+		}
+	}
+	walk(fn)
+	var names []string
+	for n := range out {
+		names = append(names, n)
+	}
+	sort.Strings(names)
+	return names
+}
+
 func ruleEToDecimalTable(p *Program, r *Reporter) {
 	pk := p.Eval
 	fd := declOf(numericRoles(p).toDecimal)
@@ -194,15 +237,25 @@ func ruleEToDecimalTable(p *Program, r *Reporter) {
 							return true
 						}
 						n := calleeName(pk, call)
-						calls = append(calls, n)
-						ok2 := false
-						for _, a := range allowed {
-							if a == n {
-								ok2 = true
-							}
+						// a helper of the package stands for the library calls it (and what it calls in the package) makes
+						names := []string{n}
+						if hf := repoFuncByFullName(p, n); hf != nil {
+							names = libraryCallsOf(p, hf)
 						}
-						if !ok2 {
-							bad = n
+						for _, n := range names {
+							if strings.HasPrefix(n, "errors.") || strings.HasPrefix(n, "(github.com/woodsbury/decimal128.Decimal).Is") {
+								continue // inspecting an error or a decimal's class converts nothing
+							}
+							calls = append(calls, n)
+							ok2 := false
+							for _, a := range allowed {
+								if a == n {
+									ok2 = true
+								}
+							}
+							if !ok2 {
+								bad = n
+							}
 						}
 						return true
 					})
@@ -1173,4 +1226,88 @@ func ruleEFloatPair(p *Program, r *Reporter) {
 		return
 	}
 	r.OK(fn.Pos(), key, fmt.Sprintf("%d of %d paths report success, each after float type tests of both operands, returning them in order", succ, total))
+}
+
+// ---------------------------------------------------------------- E-PARSE-STRICT
+
+func init() {
+	register(&Rule{ID: "E-PARSE-STRICT", Props: []string{"C05", "C14", "C03"}, Floor: 1,
+		Doc: "the coercions of a number given as text (json.Number), by interpretation with the decimal parser as a primitive that either succeeds or fails: on every path on which decimal128.Parse reports an error (malformed text, but also a value outside the decimal range, for which it returns an infinity together with the error) the coercion reports 'not a number'; no error is forgiven, so no infinity or NaN enters the arithmetic by way of a number's spelling",
+		Run: ruleEParseStrict})
+}
+
+type parseDom struct{ plainDom }
+
+func (parseDom) Call(e *Engine, st *State, site ssa.CallInstruction, callee *ssa.Function, args []AV, depth int) ([]CallOut, bool) {
+	if callee != nil && strings.HasSuffix(callee.String(), "decimal128.Parse") {
+		good := avSym{id: e.fresh(), tag: "parsed", nonNil: true}
+		bad := st.clone()
+		bad.event(Event{Kind: "parse-failed", Pos: site.Pos()})
+		errv := avSym{id: e.fresh(), tag: "parse-err", nonNil: true}
+		return []CallOut{{St: st, Res: []AV{good, avNil{}}}, {St: bad, Res: []AV{avSym{id: e.fresh(), tag: "inf-or-zero"}, errv}}}, true
+	}
+	if callee != nil && callee.String() == "errors.Is" {
+		return []CallOut{{St: st, Res: []AV{avSym{id: e.fresh(), tag: "errors.Is"}}}}, true
+	}
+	return nil, false
+}
+
+func ruleEParseStrict(p *Program, r *Reporter) {
+	nr := numericRoles(p)
+	for _, job := range []struct {
+		name string
+		fn   *ssa.Function
+		okAt int
+	}{{"toDecimal", nr.toDecimal, 1}, {"toInt", nr.toInt, 1}} {
+		if job.fn == nil {
+			continue
+		}
+		key := "evaluator." + job.name + " parse failure"
+		e := newEngine(p, parseDom{})
+		e.MaxVisits = 2
+		x := avSym{id: e.fresh(), tag: "x"}
+		outs := e.Run(job.fn, []AV{x}, e.WithInit(job.fn.Pkg, newState()))
+		if e.Aborted != "" {
+			r.Unknown(job.fn.Pos(), key, "path enumeration aborted: "+e.Aborted)
+			continue
+		}
+		failed, bad := 0, ""
+		var badPos token.Pos
+		for _, o := range outs {
+			if o.Cut || o.Panic || len(o.Res) <= job.okAt {
+				continue
+			}
+			hit := false
+			for _, ev := range o.St.Trace {
+				if ev.Kind == "parse-failed" {
+					hit = true
+				}
+			}
+			if !hit {
+				continue
+			}
+			failed++
+			// the "is a number" result (the first bool result) must be false
+			for _, rv := range o.Res {
+				if c, ok := rv.(avConst); ok && c.v.Kind() == constant.Bool {
+					if constant.BoolVal(c.v) {
+						bad, badPos = "a path on which the decimal parser reported an error still reports a number (an out-of-range spelling becomes an infinity)", o.Ret.Pos()
+					}
+					break
+				} else if _, isSym := rv.(avSym); isSym && rv != nil {
+					if sy := rv.(avSym); sy.tag == "errors.Is" || strings.HasPrefix(sy.tag, "cond") {
+						bad, badPos = "whether a failed parse counts as a number depends on which error it was: "+avKey(rv), o.Ret.Pos()
+					}
+				}
+			}
+		}
+		switch {
+		case bad != "":
+			r.Bad(badPos, key, bad)
+		case failed == 0:
+			r.Trivial(job.fn.Pos(), key, "no path calls the decimal parser")
+		default:
+			r.OK(job.fn.Pos(), key, fmt.Sprintf("%d paths on which decimal128.Parse fails: each reports 'not a number'", failed))
+		}
+	}
 }
